@@ -782,6 +782,8 @@ def int_literal_texts():
             out.append(f"let x {lit}")
             out.append(f"register q[2]\nprepare_all\nP q[0] {lit}\nmeasure_all")
         out.append("register q[" + "1" * nd + "]")
+        out.append("register q[" + "9" * nd + "]\nmap a q[1:]\nmap b a[:]\nmap c b[0:5:2]\nmap d q[" + "9" * max(1, nd - 1) + "::-1]")
+        out.append("let m -5\nregister q[" + "9" * nd + "]\nmap a q[m:]\nmap b a[:]")
         out.append("register q[2]\nloop 0 { }\nloop " + "0" * nd + " { }")
         out.append("let x 0" + "0" * nd + "1")
     return out
@@ -869,7 +871,8 @@ def canon_call(call, pulse_path=None):
         v, e = watched(f)
         return ({"ok": v}, None) if e is None else (err_json(e), e)
     if kind == "autoload":
-        v, e = watched(lambda: parse_jaqal_string(text, autoload_pulses=True, import_path=pulse_path if call.get("with_path") else None))
+        ip = call.get("import_path") or (pulse_path if call.get("with_path") else None)
+        v, e = watched(lambda: parse_jaqal_string(text, autoload_pulses=True, import_path=ip))
         if e is None:
             d, e2 = watched(lambda: C01.dumpc(v))
             return {"ok": d if e2 is None else "undumpable:" + type(e2).__name__}, None
@@ -1232,7 +1235,9 @@ def deep_chains(w, thorough):
         if kind in ("macro", "forward"):
             chain_lengths = [20, 100, 150, 250, 600, 1200] if thorough else [20, 150, 400]
         else:
-            chain_lengths = [20, 100, 200, 400, 1200] if thorough else [20, 100]
+            # (running them costs time CUBIC in their length: 400 links take 4-10 s, which under machine load is
+            # no longer distinguishable from a hang; the recursion-limit end of the range is covered by parse probes)
+            chain_lengths = [20, 100, 200, 300, 1200] if thorough else [20, 100]
         for where in (("top", "loop", "par", "sub") if thorough else (("top", "sub") if kind in ("macro", "forward") else ("top",))):
             for nlen in chain_lengths:
                 base = {"gs": True, "chain": kind, "length": nlen, "where": where}
@@ -1244,7 +1249,7 @@ def deep_chains(w, thorough):
     for kind in (("macro", "forward", "alias") if thorough else ("macro", "forward")):
         probes = ({"kind": "parse", "flags": {"expand_macro": True}}, {"kind": "parse", "flags": {"expand_let_map": True}},
                   {"kind": "run"}, {"kind": "output_list", "output": [0]})
-        for probe in (probes if thorough and kind != "alias" else (probes[0], probes[2])):
+        for probe in (probes if thorough and kind != "alias" else ((probes[0], probes[1]) if kind == "alias" else (probes[0], probes[2]))):
             for extra in range(2 if (not thorough or kind == "alias") else 7):
                 def ok(nlen):
                     out = _deeper(extra, lambda: canon_call(dict(probe, gs=True, chain=kind, length=nlen, where="top"))[0])
@@ -1263,6 +1268,8 @@ def deep_chains(w, thorough):
                     base = {"gs": True, "chain": kind, "length": nlen, "where": "top", "extra_stack": extra}
                     for fl in CHAIN_FLAGS[:5]:
                         _deeper(extra, lambda: check_call(w, dict(base, kind="parse", flags=fl), stream="deep_chain:parse"))
+                    if kind == "alias" and nlen > 300:
+                        continue  # cubic running time, see above
                     _deeper(extra, lambda: check_call(w, dict(base, kind="run"), stream="deep_chain:run"))
                     _deeper(extra, lambda: check_call(w, dict(base, kind="output_list", output=[0]), stream="deep_chain:output_list"))
 
@@ -1281,7 +1288,7 @@ def import_calls():
     out = []
     for mod, want in [("nosuch.mod", "ImportError"), ("nosuch", "ImportError"), ("os", "ImportError"), ("os.path", "ImportError"),
                       ("jaqalpaq.error", "ImportError"), ("jaqalpaq", "ImportError"), (".nosuch", "ImportError"), (".nosuch.sub", "ImportError"),
-                      (".", "ImportError"), (".c16broken", "ImportError"), (".c16nogates", "ImportError"), (".c16pkg.nosuch", None),
+                      (".", "ImportError"), (".c16broken", "ImportError"), (".c16nogates", "ImportError"), (".c16pkg.nosuch", "ImportError"),
                       ("c16pkg", "ImportError"), (".c16pkg", "ok"), (".c16flat", "ok")]:
         t = f"from {mod} usepulses *\n" + prog
         out.append({"kind": "autoload", "text": t, "with_path": True, "expect": want})
@@ -1295,6 +1302,10 @@ def import_calls():
     out.append({"kind": "autoload", "text": "from .c16pkg usepulses *\n" + prog + "from .c16pkg usepulses *\n", "with_path": True, "expect": "JaqalParseError"})
     out.append({"kind": "autoload", "text": "from .c16pkg usepulses x\n" + prog, "with_path": True, "expect": "JaqalParseError"})
     out.append({"kind": "autoload", "text": prog, "with_path": True, "expect": "JaqalError"})
+    # an import path that does not exist / is not a directory: the module cannot be found
+    for ip in ("/nonexistent-c16-dir", "/etc/passwd", ""):
+        for mod in (".nosuch", ".c16pkg", "nosuch"):
+            out.append({"kind": "autoload", "text": f"from {mod} usepulses *\n" + prog, "import_path": ip, "expect": "ImportError" if ip else None})
     return out
 
 
